@@ -31,4 +31,7 @@ void verif_assert(bool c, const char *msg) noexcept {
 void verif_observe(uint64_t v) noexcept { printf("OBS %llu\n", (unsigned long long)v); }
 }
 extern "C" void VERIF_ENTRY();
-int main() { VERIF_ENTRY(); printf("RETURNED\n"); return 0; }
+#include <unistd.h>
+// _exit: the harness TU and libcppcms.so may both define the unit's globals
+// (symbol interposition => constructed/destroyed twice); skip static destructors.
+int main() { VERIF_ENTRY(); printf("RETURNED\n"); fflush(stdout); _exit(0); }
